@@ -10,7 +10,7 @@ CLAIMED = {
  'C04': ('same schedules: events delivered == changed: lines the server wrote; the two recorded defects are attributed by class and re-confirmed natively', '4 C04'),
  'C05': ('same schedules judged by the protocol monitor of the simulated server (idle/noidle discipline, one outstanding request) plus re-idle after the timer', '4 C05'),
  'C08': ('schedules with one fault (EOF, read/write error, garbage, last handle dropped) at a symbolic step: every request resolves, closed flag, event stream end, surfacing, transport release', '4 C08'),
- 'C17': ('Client::album_art coroutine against a simulated picture store for all sizes/limits/sources within the bounds: bytes, MIME, increasing offsets, fallback, absence, error propagation', '4 C17'),
+ 'C17': ('Client::album_art coroutine against a simulated picture store for all sizes/limits/sources within the bounds, with shrinking chunk limits and payload/terminator delivered separately: bytes, MIME, increasing offsets, fallback, absence, error propagation', '4 C17'),
 
  'C03': ('stream templates with free bytes decoded by both real connections and compared with an independent reference decoder of the response grammar on every path (plus the field-name alphabet lemma)', '4 C03'),
  'C02': ('one symbolic stream run under every two-way split, byte-wise and further segmentations on both connections, results compared pairwise by z3; prefix stability of the line and greeting grammars', '4 C02'),
@@ -19,7 +19,7 @@ CLAIMED = {
  'C18': ('free first lines under several segmentations through both connect functions against the greeting grammar (connected / InvalidMessage / UnexpectedEof, version verbatim); the password exchange through the real do_connect coroutine against a simulated server (OK / ACK / close / garbage)', '4 C18'),
 
  'C07': ('command names of every stated length and add_argument sequences with a fresh-bytes renderer: acceptance, rollback and one-line framing decided by z3 on every path', '4 C07'),
- 'C13': ('list building and rendering for 1..N commands with symbolic command bytes and the typed list impls (Vec, tuples 1..8) with symbolically failing conversions; framing and positional pairing asserted on every path', '4 C13'),
+ 'C13': ('list building, rendering and sending (short writes) for 1..N commands with symbolic command bytes; typed list impls (Vec, tuples 1..8) with symbolically failing conversions; list replies decoded end to end by both real connections; typed lists (also empty, also on a closed connection) through the real Client::command_list under symbolic schedules; framing and positional pairing asserted on every path', '4 C13'),
  'C15': ('every constructor/builder path of every predefined command with full-width symbolic integers and Bound pairs: the rendered request is tokenised by the port of MPD\'s tokenizer and compared word by word with an expectation table (numbers numerically, ranges as position sets via a probe position, durations against exact decimal arithmetic)', '4 C15'),
  'C20': ('every tag and subsystem variant against Other(symbolic name): ==, cmp, hash feed; Tag::try_from on all strings within the bounds and on every known name in every letter case; subsystem names through from_frame/as_str', '4 C20'),
  'C11': ('filter trees of every shape within the bounds, rendered inside a real find command and decoded by ports of MPD\'s tokenizer and filter parser; equality with the mirror tree decided by z3 on every path', '4 C11'),
